@@ -152,7 +152,8 @@ def runDoc (fmt doc : String) : Option (Outcome Pairs × Option Pairs) :=
         | some [a, b, c, d] => some (⟨a, b, c, d⟩ : GoMod.Replace)
         | _ => none
       match kvList rq ",", reps, charsOfHex (if gv = "" then "-" else gv), charsOfHex (if tc = "" then "-" else tc) with
-      | some rq, some reps, some gv, some tc => some (nvOut (GoMod.extract ⟨rq, reps, gv, tc⟩), some (nvPairs (GoMod.expected ⟨rq, reps, gv, tc⟩)))
+      | some rq, some reps, some gv, some tc => let d : GoMod.Doc := ⟨rq, reps, gv, tc⟩
+        if GoMod.consistent d then some (nvOut (GoMod.extract d), some (nvPairs (GoMod.expectedGo d))) else some (nvOut (GoMod.extract d), none)
       | _, _, _, _ => none
     | [rq, rp, gv, tc, older, sm] =>
       -- go.mod with a go.sum next to it: `older` = the extractor consults go.sum (go / toolchain older than 1.17), `sm` = its (module, version) fields
@@ -163,7 +164,8 @@ def runDoc (fmt doc : String) : Option (Outcome Pairs × Option Pairs) :=
       match kvList rq ",", reps, charsOfHex (if gv = "" then "-" else gv), charsOfHex (if tc = "" then "-" else tc), sum with
       | some rq, some reps, some gv, some tc, some sum =>
         let d : GoMod.Doc := ⟨rq, reps, gv, tc⟩
-        some (nvOut (GoMod.extractWithSum d (older = "1") sum), some (nvPairs (GoMod.expectedSum d (older = "1") sum)))
+        if GoMod.consistent d then some (nvOut (GoMod.extractWithSum d (older = "1") sum), some (nvPairs (GoMod.expectedGoSum d (older = "1") sum)))
+        else some (nvOut (GoMod.extractWithSum d (older = "1") sum), none)
       | _, _, _, _, _ => none
     | _ => none
   | _ => none
